@@ -480,6 +480,10 @@ def gen_case(rng, kind):
     elif kind == "nodes":
         seeds = gen_seeds(rng, rng.randint(1, 8), 16)
         ops, root = gen_ops(rng, seeds, rng.randint(1, 6), negation=rng.random() < 0.2)
+    elif kind == "big":
+        # the upper end of the stated scope: 10-12 seeds (12 x 4 bits: f64 arithmetic still exact)
+        seeds = gen_seeds(rng, rng.randint(10, 12), 16)
+        ops, root = gen_ops(rng, seeds, rng.randint(4, 9), negation=rng.random() < 0.25)
     elif kind == "wide":
         # many cheap, nearly disjoint proofs with small probabilities: the union bound is far from saturated,
         # so a residual / probe mass that is too small shows up as an interval that misses the truth
@@ -917,7 +921,7 @@ def run(ctx):
                                         "the deadline expiring at every clock reading in three clock shapes" % (len(ex) // 128))
     # random streams
     mult = 6 if ctx.thorough else 1
-    for kind, n in (("mono", 120), ("wide", 40), ("neg", 40), ("excl", 40), ("nodes", 40), ("missing", 16), ("float", 40)):
+    for kind, n in (("mono", 120), ("wide", 40), ("neg", 40), ("excl", 40), ("nodes", 40), ("missing", 16), ("float", 40), ("big", 8)):
         cs = [gen_case(rng, kind) for _ in range(n * mult)]
         # a few explicit arbitrary (non-monotone) clocks
         for c in cs[: max(4, len(cs) // 4)]:
